@@ -81,6 +81,43 @@ func genC14(c *Ctx) {
 	for n := 0; n <= maxLen; n++ {
 		rec(nil, n)
 	}
+	// exhaustive over a reduced alphabet, longer: misplaced / surplus padding around whole quanta
+	red := []byte{'A', '-', '=', '\n'}
+	redLen := 8
+	if c.Thorough() {
+		redLen = 10
+	}
+	var rec2 func(prefix []byte, n int)
+	rec2 = func(prefix []byte, n int) {
+		if len(prefix) == n {
+			c14One(c, "reduced", append([]byte{}, prefix...))
+			return
+		}
+		for _, r := range red {
+			rec2(append(prefix, r), n)
+		}
+	}
+	for n := 5; n <= redLen; n++ {
+		rec2(nil, n)
+	}
+	// a padded quantum in the MIDDLE of otherwise valid text, at every quantum boundary up to 2 KiB
+	// (stream decoders treat input in chunks; padding is only legal at the very end)
+	step := 8
+	if c.Thorough() {
+		step = 1
+	}
+	body := make([]byte, 0, 4096)
+	for q := 0; q <= 512; q++ {
+		if q%step == 0 || (q >= 160 && q <= 180) || (q >= 290 && q <= 300) {
+			for _, pad := range []string{"QQ==", "QUI="} {
+				for _, tail := range []string{"QUJD", "QQ==", "\nQUJD\n"} {
+					t := append(append(append([]byte{}, body...), pad...), tail...)
+					c14One(c, "midpad", t)
+				}
+			}
+		}
+		body = append(body, "QUJD"[q%4], "abcd"[(q/4)%4], 'E', 'F')
+	}
 	// sampled longer class strings, biased to valid characters
 	nSample := 3000
 	if c.Thorough() {
